@@ -169,6 +169,38 @@ class Models(object):
         R('<Iter as Iterator>::map|<IntoIter as Iterator>::map', lambda ex, fr, c, a, st, pc:
           (('mapiter', a[0], a[1]), S.TRUE))
         R('<Map as Iterator>::collect', self.map_collect)
+        R('BTreeMap::into_values', lambda ex, fr, c, a, st, pc:
+          (('veciter', VecV([kv[1] if kv is not UNDEF else UNDEF for kv in a[0][1].cells], a[0][1].length), S.bv(0, 64), 'val'), S.TRUE))
+        R('BTreeMap::len', lambda ex, fr, c, a, st, pc: (self.rd(st, a[0])[1].length, S.TRUE))
+
+        def veciter_collect(ex, fr, c, a, st, pc):
+            it = a[0]
+            if it[0] != 'veciter' or it[3] != 'val' or not (S.is_const(it[2]) and S.cval(it[2]) == 0):
+                raise Unsupported('collect on %r' % (it[0],))
+            if 'BTreeMap' in c or 'HashMap' in c or 'HashSet' in c or 'BTreeSet' in c:
+                raise Unsupported('collect into a map/set from a plain iterator')
+            return it[1], S.TRUE
+        R('<IntoValues as Iterator>::collect|<IntoIter as Iterator>::collect', veciter_collect)
+
+        def uuid_as_bytes(ex, fr, c, a, st, pc):
+            u = self.rd(st, a[0])
+            if isinstance(u, tuple) and len(u) == 1:
+                u = u[0]
+            if not isinstance(u, S.Term) or u.sort != 128:
+                raise Unsupported('Uuid::as_bytes on %r' % (u,))
+            by = tuple(S.Extract(127 - 8 * i, 120 - 8 * i, u) for i in range(16))
+            return RefV(ex.alloc(st, by, 'uuidbytes'), ()), S.TRUE
+        R('Uuid::as_bytes', uuid_as_bytes)
+
+        def from_be(ex, fr, c, a, st, pc):
+            by = a[0]
+            if not isinstance(by, tuple) or not all(isinstance(b, S.Term) for b in by):
+                raise Unsupported('from_be_bytes on %r' % (by,))
+            r = by[0]
+            for b in by[1:]:
+                r = S.Concat(r, b)
+            return r, S.TRUE
+        R('num::from_be_bytes', from_be)
         R('<Map as Iterator>::sum', self.map_sum)
         R('slice::sort_by_key', self.sort_by_key)
         # --- time
@@ -870,6 +902,24 @@ class Models(object):
 
     def map_collect(self, ex, fr, c, a, st, pc):
         items, st, live = self._drain_map(ex, a[0], st, pc)
+        if 'BTreeMap' in c:
+            # ordered map from (key, value) pairs: a later pair replaces an earlier one with an equal key, iteration is
+            # in key order.  kept entries sorted to the front, the rest behind the length.
+            keys, cells = [], []
+            for i, (has, kv) in enumerate(items):
+                if not (isinstance(kv, tuple) and len(kv) == 2):
+                    raise Unsupported('BTreeMap from non-pair items')
+                ki = self._flat_key(kv[0])
+                later = S.Or([S.And(h2, S.And([S.Eq(x, y) for x, y in zip(ki, self._flat_key(kv2[0]))]))
+                              for h2, kv2 in items[i + 1:]]) if i + 1 < len(items) else S.FALSE
+                keep = S.And(has, S.Not(later))
+                keys.append([S.Not(keep)] + ki)
+                cells.append(kv)
+            n = S.bv(0, 64)
+            for k in keys:
+                n = S.Add(n, S.B2BV(S.Not(k[0]), 64))
+            self._bubble(cells, keys, self._lex_less)
+            return ('btreemap', VecV(cells, n)), st, live
         # elements are a prefix (has_i is monotone for veciter), so cells are positional
         n = S.bv(0, 64)
         for has, _ in items:
@@ -890,6 +940,45 @@ class Models(object):
             live = S.And(live, S.Not(ovf))
             acc = S.Ite(has, S.Add(acc, v), acc)
         return acc, st, live
+
+    @staticmethod
+    def _lex_less(x, y):
+        r = S.FALSE
+        for p_, q_ in reversed(list(zip(x, y))):
+            if p_.sort == S.B:
+                lt, eq = S.And(S.Not(p_), q_), S.Eq(p_, q_)
+            else:
+                lt, eq = S.Ult(p_, q_), S.Eq(p_, q_)
+            r = S.Or(lt, S.And(eq, r))
+        return r
+
+    @staticmethod
+    def _flat_key(k):
+        if isinstance(k, S.Term):
+            return [k]
+        if isinstance(k, tuple):
+            out = []
+            for x in k:
+                out += Models._flat_key(x)
+            return out
+        raise Unsupported('sort key %r' % (k,))
+
+    @staticmethod
+    def _bubble(cells, keys, less):
+        """in-place stable bubble network over cells with parallel key lists"""
+        n = len(cells)
+        for rnd in range(n):
+            for i in range(n - 1 - rnd):
+                if cells[i] is UNDEF or cells[i + 1] is UNDEF:
+                    continue
+                sw = less(keys[i + 1], keys[i])
+                if sw is S.FALSE:
+                    continue
+                x, y = cells[i], cells[i + 1]
+                cells[i], cells[i + 1] = merge(sw, y, x), merge(sw, x, y)
+                kx, ky = keys[i], keys[i + 1]
+                keys[i] = [S.Ite(sw, q_, p_) for p_, q_ in zip(kx, ky)]
+                keys[i + 1] = [S.Ite(sw, p_, q_) for p_, q_ in zip(kx, ky)]
 
     def sort_by_key(self, ex, fr, c, a, st, pc):
         """stable sort of a Vec with symbolic length: bubble network, swap only when strictly greater;
@@ -933,18 +1022,7 @@ class Models(object):
             valid = S.Ult(S.bv(i, 64), v.length)
             # leading component: invalid (beyond length) elements sort last
             keys.append([S.Not(valid)] + flat(k))
-        for rnd in range(n):
-            for i in range(n - 1 - rnd):
-                if cells[i] is UNDEF or cells[i + 1] is UNDEF:
-                    continue
-                sw = less(keys[i + 1], keys[i])
-                if sw is S.FALSE:
-                    continue
-                x, y = cells[i], cells[i + 1]
-                cells[i], cells[i + 1] = merge(sw, y, x), merge(sw, x, y)
-                kx, ky = keys[i], keys[i + 1]
-                keys[i] = [S.Ite(sw, q_, p_) for p_, q_ in zip(kx, ky)]
-                keys[i + 1] = [S.Ite(sw, p_, q_) for p_, q_ in zip(kx, ky)]
+        self._bubble(cells, keys, less)
         self.wr(st, a[0], VecV(cells, v.length))
         return UNIT, st, S.TRUE
 
